@@ -84,6 +84,26 @@ def step (c : Attrs α) (e : Entry α) : Attrs α :=
 /-- the inner loop: the canonical's attributes after all aliases (in iteration order) -/
 def merge (c : Attrs α) (es : List (Entry α)) : Attrs α := es.foldl step c
 
+/-- what the loop may adopt as start from one entry -/
+def adopt (e : Entry α) : Option α :=
+  if e.skipped then none else e.attrs.start.map (sgn e.neg)
+
+/-- The starts the merged canonical can end up with when the iteration order of the (unordered)
+    set of aliases is not known: its own explicit start, else any merged alias' explicit
+    sign-adjusted start, else the default marker. -/
+def startChoices (c : Attrs α) (es : List (Entry α)) : List (Option α) :=
+  match c.start with
+  | some v => [some v]
+  | none =>
+    let xs := es.filterMap adopt
+    if xs.isEmpty then [none] else xs.map some
+
+/-- The Python types the merged canonical can end up with for an unknown iteration order: the
+    type of any merged alias that is not `float` (the last one met wins), else its own. -/
+def ptypeChoices (c : Attrs α) (es : List (Entry α)) : List PType :=
+  let xs := (es.filter fun e => !e.skipped && !(e.attrs.ptype = PType.float)).map fun e => e.attrs.ptype
+  if xs.isEmpty then [c.ptype] else xs
+
 end
 
 /-- an alias met for the first time (no earlier pass knew it) -/
